@@ -197,6 +197,26 @@ def run(rep):
     rep.check('R13.c', fkey(bfr, 'file handed to response'), ok,
               'the file opened (binary) for serving is wrapped by file_wrapper and becomes resp.response on every success path (closed by the response\'s close())' if ok else
               'the opened file is not handed to the response through file_wrapper on every success path', st, opens[0] if opens else bfr.node)
+    # ... and nobody replaces the body afterwards: the file wrapper is the only reference through which close()
+    # releases the file, also for HEAD (werkzeug closes resp.response in Response.close())
+    for fi_ in st.functions.values():
+        if fi_ is bfr:
+            continue
+        resp_vars = set(norm(s.targets[0]) for s in stmts_of(fi_.node) if isinstance(s, ast.Assign) and isinstance(s.value, ast.Call)
+                        and call_name(s.value) in ('bfr', 'build_file_response'))
+        if not resp_vars:
+            continue
+        drops = [e for e in effects.effects_in(fi_.node) if e.root in resp_vars and (e.chain or [None, None])[1:2] in (['response'], ['data'])] + \
+            [c for c in walk_body(fi_.node) if isinstance(c, ast.Call) and call_tail(c) == 'set_data' and norm(c.func.value) in resp_vars]
+        rep.check('R13.c', fkey(fi_, 'body not replaced'), not drops,
+                  'the file response is returned with the body object build_file_response installed' if not drops else
+                  '%s replaces the body of the file response (%s): the opened file is no longer reachable from the response and '
+                  'close() cannot release it' % (fi_.qualname, [short(getattr(d, 'node', d)) for d in drops]), st,
+                  getattr(drops[0], 'node', drops[0]) if drops else fi_.node)
+        rets_ = returns_of(fi_)
+        ok = bool(rets_) and all(norm(r.value) in resp_vars for r in rets_)
+        rep.check('R13.c', fkey(fi_, 'returns the file response'), ok, 'the response built for the file is what is returned' if ok else
+                  '%s does not return the response that owns the file' % fi_.qualname, st, fi_.node)
     gfr = st.func('StaticApplication.get_file_response')
     fw = [kwarg(c, 'file_wrapper') for c in walk_body(gfr.node) if isinstance(c, ast.Call) and call_name(c) in ('bfr', 'build_file_response')]
     ok = bool(fw) and all(v is not None and "request.environ.get('wsgi.file_wrapper'" in norm(v) for v in fw)
